@@ -728,6 +728,15 @@ func (sc *SpecCtx) call(x *ast.CallExpr) SV {
 				}
 				it := sc.ex.val(sc.ex.strIters[n-1])
 				return SV{sel(q.heapGet(sc.curHeap(), sc.ex.regKey("IT:pos", arrSort(sInt, sInt))), it), types.Typ[types.Int]}
+			case "ghostconst":
+				// ghostconst("name"): a global uninterpreted integer constant shared by all contracts
+				bl, ok := x.Args[0].(*ast.BasicLit)
+				if !ok {
+					sc.fail("ghostconst needs a string literal")
+				}
+				name, _ := strconv.Unquote(bl.Value)
+				q.declFun("ghost_"+sanitize(name), "() Int")
+				return SV{Term{"ghost_" + sanitize(name), sInt}, types.Typ[types.Int]}
 			case "same":
 				a, b := sc.eval(x.Args[0]), sc.eval(x.Args[1])
 				return SV{eq(a.t, b.t), boolT}
